@@ -293,3 +293,19 @@ func vs_respOK(m URLMethods) bool {
 			})
 	})
 }
+
+// parameter presence (docs/reference/transform/diff.md): a required parameter that appears is
+// breaking for requests; deletions are reported with the required-ness of the old parameter.
+func vs_addedParamCode(required bool) SpecChangeCode {
+	if required {
+		return AddedRequiredParam
+	}
+	return AddedOptionalParam
+}
+
+func vs_deletedParamCode(required bool) SpecChangeCode {
+	if required {
+		return DeletedRequiredParam
+	}
+	return DeletedOptionalParam
+}
